@@ -442,8 +442,24 @@ func runCases(p *Property, o Options, cases []Case) *Agg {
 		par = p.Parallel(o.Tier)
 	}
 	shards := make([][]Case, W)
-	for i, c := range cases {
-		shards[i%W] = append(shards[i%W], c)
+	pars := make([]int, W)
+	var solo []Case
+	ni := 0
+	for _, c := range cases {
+		if p.Solo != nil && p.Solo(c) {
+			solo = append(solo, c)
+			continue
+		}
+		shards[ni%W] = append(shards[ni%W], c)
+		ni++
+	}
+	for i := range pars {
+		pars[i] = par
+	}
+	if len(solo) > 0 {
+		shards = append(shards, solo)
+		pars = append(pars, 1)
+		W++
 	}
 	caseTO := p.CaseTimeout
 	if caseTO == 0 {
@@ -465,11 +481,11 @@ func runCases(p *Property, o Options, cases []Case) *Agg {
 				}
 			}
 			// shard watchdog: generous; every case has its own watchdog inside the worker
-			to := time.Duration(len(shards[i])/par+2)*caseTO + 60*time.Second
+			to := time.Duration(len(shards[i])/pars[i]+2)*caseTO + 60*time.Second
 			if to > 3*time.Hour {
 				to = 3 * time.Hour
 			}
-			outs[i] = runWorker(p, dir, fmt.Sprintf("w%02d", i), shards[i], par, env, to)
+			outs[i] = runWorker(p, dir, fmt.Sprintf("w%02d", i), shards[i], pars[i], env, to)
 		}(i)
 	}
 	wg.Wait()
